@@ -1,5 +1,6 @@
 import SigHook.Model.RegistrySeq
 import SigHook.Model.Default
+import SigHook.Model.Origin
 import SigHook.Gen.Consts
 import SigHook.Model.Env
 /-!
@@ -98,6 +99,23 @@ def defaultsStep (_ : Unit) (line : String) : Unit × String :=
     | none => ((), "bad-op")
   | _ => ((), "bad-op")
 
+def fmtCause : Gen.Cause → String
+  | .unknown => "unknown" | .kernel => "kernel" | .sentUser => "sentUser" | .sentTKill => "sentTKill"
+  | .sentQueue => "sentQueue" | .sentMesgQ => "sentMesgQ" | .chldExited => "chldExited"
+  | .chldKilled => "chldKilled" | .chldDumped => "chldDumped" | .chldTrapped => "chldTrapped"
+  | .chldStopped => "chldStopped" | .chldContinued => "chldContinued"
+
+def originStep (_ : Unit) (line : String) : Unit × String :=
+  match line.trimAscii.toString.splitOn " " with
+  | ["ex", s, c, p, u] =>
+    match parseInt? s, parseInt? c, parseInt? p, parseInt? u with
+    | some s, some c, some p, some u =>
+      let o := Origin.extract ⟨s, c, p, u⟩
+      let pr := match o.process with | some (a, b) => s!"{a}:{b}" | none => "none"
+      ((), s!"sig={o.signal} cause={fmtCause o.cause} proc={pr}")
+    | _, _, _, _ => ((), "bad-op")
+  | _ => ((), "bad-op")
+
 partial def loop {σ} (h : IO.FS.Stream) (out : IO.FS.Stream) (st : σ) (f : σ → String → σ × String) :
     IO Unit := do
   let line ← h.getLine
@@ -115,4 +133,5 @@ def main (args : List String) : IO UInt32 := do
   match args with
   | ["registry"] => loop stdin stdout ({} : RegDrv) regStep; return 0
   | ["defaults"] => loop stdin stdout () defaultsStep; return 0
+  | ["origin"] => loop stdin stdout () originStep; return 0
   | _ => IO.eprintln "usage: driver registry"; return 2
